@@ -12,7 +12,14 @@ package limitscheck
 //	{"a":"TakeMsg","m","ip","src"}   target.Start(msgMeta{RemoteAddr ip}, "m@src")
 //	{"a":"TakeDest","m","d"}          delivery.AddRcpt("u@d")  (first recipient of the domain)
 //	{"a":"MailReject","m","d"}        (plan) the next hop refuses this delivery's MAIL for d
-//	{"a":"End","m"}                   delivery.Abort()
+//	{"a":"End","m","how"}             how the delivery ends:
+//	    abort     delivery.Abort()                                   (connections go back to the pool)
+//	    commit    Body (accepted) + Commit                           (pooled)
+//	    datafail  Body, the next hop refuses DATA with 554 + Abort   (connection errored: closed, not pooled)
+//	    drop      Body, the next hop drops the connection at DATA + Abort      (closed, not pooled)
+//	    rsetfail  Abort, the next hop answers RSET with 451          (not usable: closed, not pooled)
+//	behaviour field "reuse": conn_reuse_limit (1: every second transaction on a connection
+//	makes it non-poolable)
 //	{"a":"Tick"}
 //
 // Output: the same event vocabulary as the API level (Call/Ret/Snap/...), plus
@@ -32,8 +39,10 @@ import (
 	"testing"
 	"testing/synctest"
 
+	"github.com/emersion/go-message/textproto"
 	"github.com/emersion/go-smtp"
 	"github.com/foxcpp/go-mockdns"
+	"github.com/foxcpp/maddy/framework/buffer"
 	"github.com/foxcpp/maddy/framework/log"
 	"github.com/foxcpp/maddy/framework/module"
 	"github.com/foxcpp/maddy/internal/smtpconn/pool"
@@ -42,9 +51,11 @@ import (
 )
 
 type rworld struct {
+	conns    []net.Conn // client ends handed out by the dialer
 	mu       sync.Mutex
-	reject   map[string]bool // "from|domain": refuse the next MAIL
-	rejected map[string]bool // "from|domain": a MAIL was refused
+	reject   map[string]bool   // "from|domain": refuse the next MAIL
+	rejected map[string]bool   // "from|domain": a MAIL was refused
+	dataPlan map[string]string // "from|domain": datafail | drop | rsetfail for the current transaction
 }
 
 func (w *rworld) serve(c net.Conn, domain string) {
@@ -55,6 +66,12 @@ func (w *rworld) serve(c net.Conn, domain string) {
 		return
 	}
 	inData := false
+	cur := "" // "from|domain" of the transaction in progress
+	plan := func() string {
+		w.mu.Lock()
+		defer w.mu.Unlock()
+		return w.dataPlan[cur]
+	}
 	for {
 		line, err := br.ReadString('\n')
 		if err != nil {
@@ -78,6 +95,7 @@ func (w *rworld) serve(c net.Conn, domain string) {
 				from = strings.TrimPrefix(from[:i], "<")
 			}
 			k := from + "|" + domain
+			cur = k
 			w.mu.Lock()
 			rej := w.reject[k]
 			if rej {
@@ -93,9 +111,22 @@ func (w *rworld) serve(c net.Conn, domain string) {
 		case strings.HasPrefix(up, "RCPT TO:"):
 			say("250 2.1.5 ok")
 		case up == "DATA":
-			inData = true
-			say("354 go ahead")
-		case up == "RSET", up == "NOOP":
+			switch plan() {
+			case "datafail":
+				say("554 5.0.0 message refused")
+			case "drop":
+				return
+			default:
+				inData = true
+				say("354 go ahead")
+			}
+		case up == "RSET":
+			if plan() == "rsetfail" {
+				say("451 4.0.0 try again later")
+			} else {
+				say("250 2.0.0 ok")
+			}
+		case up == "NOOP":
 			say("250 2.0.0 ok")
 		case up == "QUIT":
 			say("221 2.0.0 bye")
@@ -138,13 +169,16 @@ func classifyErr(err error) string {
 	return "full"
 }
 
-func (r *rrun) rcall(c *rclient, op, ip, src, d string) {
+func (r *rrun) rcall(c *rclient, op, ip, src, d, how string) {
+	prev := r.parked()
+	defer func() { r.resume(prev) }()
 	r.mu.Lock()
 	c.pending, c.op = true, op
 	r.mu.Unlock()
-	r.tr.Emit("Call", vtrace.Ev{"m": c.name, "op": op, "ip": ip, "src": src, "d": d})
+	r.tr.Emit("Call", vtrace.Ev{"m": c.name, "op": op, "ip": ip, "src": src, "d": d, "how": how})
 	from := c.name + "@" + src
 	go func() {
+		r.enter(c.name)
 		res, detail := "ok", ""
 		rejected := false
 		defer func() {
@@ -200,8 +234,24 @@ func (r *rrun) rcall(c *rclient, op, ip, src, d string) {
 				// rejected: the permit was taken (MAIL is sent after TakeDest) - res stays ok
 			}
 		case "End":
+			r.mu.Lock()
+			nconn := len(c.dst)
+			r.mu.Unlock()
+			var berr error
+			if nconn > 0 && (how == "commit" || how == "datafail" || how == "drop") {
+				hdr := textproto.Header{}
+				hdr.Add("Subject", "verif")
+				berr = c.d.Body(ctx, hdr, buffer.MemoryBuffer{Slice: []byte("hello\r\n")})
+				if berr == nil {
+					if err := c.d.Commit(ctx); err != nil {
+						detail = "commit: " + err.Error()
+					}
+					break
+				}
+				detail = "body: " + berr.Error()
+			}
 			if err := c.d.Abort(ctx); err != nil {
-				detail = err.Error()
+				detail += " abort: " + err.Error()
 			}
 		}
 	}()
@@ -234,7 +284,7 @@ func (r *rrun) rstep(st Step, rejectNext bool) {
 			r.skip(st, "delivery already open")
 			return
 		}
-		r.rcall(c, "TakeMsg", st.IP, st.Src, "")
+		r.rcall(c, "TakeMsg", st.IP, st.Src, "", "")
 	case "TakeDest":
 		if !msg || hasD {
 			r.skip(st, "no open delivery / domain already connected")
@@ -247,13 +297,28 @@ func (r *rrun) rstep(st Step, rejectNext bool) {
 			r.w.reject[c.name+"@"+src+"|"+st.D] = true
 		}
 		r.w.mu.Unlock()
-		r.rcall(c, "TakeDest", "", "", st.D)
+		r.rcall(c, "TakeDest", "", "", st.D, "")
 	case "End":
 		if !msg {
 			r.skip(st, "no open delivery")
 			return
 		}
-		r.rcall(c, "End", "", "", "")
+		how := st.How
+		if how == "" {
+			how = "abort"
+		}
+		r.w.mu.Lock()
+		r.mu.Lock()
+		for d := range c.dst {
+			k := c.name + "@" + src + "|" + d
+			delete(r.w.dataPlan, k)
+			if how == "datafail" || how == "drop" || how == "rsetfail" {
+				r.w.dataPlan[k] = how
+			}
+		}
+		r.mu.Unlock()
+		r.w.mu.Unlock()
+		r.rcall(c, "End", "", "", "", how)
 	default:
 		r.skip(st, "not a remote-level step")
 		return
@@ -265,12 +330,16 @@ func runRemoteBehaviour(t *testing.T, b Behaviour, w *bufio.Writer) {
 	synctest.Test(t, func(t *testing.T) {
 		tr := vtrace.New(w, b.ID)
 		tr.Emit("Cfg", vtrace.Ev{"all": b.Cfg.All, "ip": b.Cfg.IP, "source": b.Cfg.Source,
-			"dest": b.Cfg.Dest, "mb": b.Cfg.MB, "dual": b.Dual, "level": "remote"})
+			"dest": b.Cfg.Dest, "mb": b.Cfg.MB, "dual": b.Dual, "level": "remote", "reuse": b.Reuse})
 		g, err := newGroup(b.Cfg, b.Dual)
 		if err != nil {
 			t.Fatalf("behaviour %d: cannot build limits group: %v", b.ID, err)
 		}
-		world := &rworld{reject: map[string]bool{}, rejected: map[string]bool{}}
+		world := &rworld{reject: map[string]bool{}, rejected: map[string]bool{}, dataPlan: map[string]string{}}
+		reuse := b.Reuse
+		if reuse <= 0 {
+			reuse = 10
+		}
 		zones := map[string]mockdns.Zone{}
 		for _, d := range namedDst {
 			zones[d+"."] = mockdns.Zone{MX: []net.MX{{Host: "mx." + d + ".", Pref: 10}}}
@@ -290,18 +359,31 @@ func runRemoteBehaviour(t *testing.T, b Behaviour, w *bufio.Writer) {
 				}
 				d := strings.TrimSuffix(strings.TrimPrefix(host, "mx."), ".")
 				cl, srv := net.Pipe()
+				world.mu.Lock()
+				world.conns = append(world.conns, cl)
+				world.mu.Unlock()
 				go world.serve(srv, d)
 				return cl, nil
 			},
 			Limits: g,
 			Pool: pool.Config{MaxKeys: 5000, MaxConnsPerKey: 5, MaxConnLifetimeSec: 150,
 				StaleKeyLifetimeSec: 300},
-			ConnReuseLimit: 10,
+			ConnReuseLimit: reuse,
 			Log:            nolog,
 		})
-		defer tgt.Close()
+		defer func() {
+			tgt.Close()
+			synctest.Wait()
+			// a delivery that crashed inside Close leaves its connections open
+			world.mu.Lock()
+			for _, c := range world.conns {
+				c.Close()
+			}
+			world.mu.Unlock()
+		}()
 		r := &rrun{run: run{t: t, b: b, g: g, tr: tr, cl: map[string]*client{}}, w: world, tgt: tgt,
 			rc: map[string]*rclient{}}
+		r.installYield()
 		for i, st := range b.Hist {
 			rej := false
 			if st.A == "TakeDest" {
@@ -316,17 +398,21 @@ func runRemoteBehaviour(t *testing.T, b Behaviour, w *bufio.Writer) {
 			r.rstep(st, rej)
 		}
 		// every delivery ends
-		for i := 0; i < 3 && len(r.pendingNames()) > 0; i++ {
-			r.tick()
+		endAll := func() {
+			r.resume(r.parked())
+			for i := 0; i < 3 && len(r.pendingNames()) > 0; i++ {
+				r.tick()
+			}
+			names := []string{}
+			for n := range r.rc {
+				names = append(names, n)
+			}
+			sort.Strings(names)
+			for _, n := range names {
+				r.rstep(Step{A: "End", M: n}, false)
+			}
 		}
-		names := []string{}
-		for n := range r.rc {
-			names = append(names, n)
-		}
-		sort.Strings(names)
-		for _, n := range names {
-			r.rstep(Step{A: "End", M: n}, false)
-		}
+		endAll()
 		// probe: a new delivery to every domain used must get through, one at a time
 		if b.Probe {
 			crashed := false
@@ -356,8 +442,9 @@ func runRemoteBehaviour(t *testing.T, b Behaviour, w *bufio.Writer) {
 				r.rstep(Step{A: "End", M: "q1"}, false)
 			}
 		}
-		for i := 0; i < 3 && len(r.pendingNames()) > 0; i++ {
-			r.tick()
+		// a caller that was parked late (yield point) may still have a delivery open
+		for i := 0; i < 3 && (r.parked() != nil || len(r.pendingNames()) > 0); i++ {
+			endAll()
 		}
 		r.snap("Quiesced")
 	})
